@@ -17,6 +17,13 @@ from migen.fhdl.structure import _Operator, _Slice, _Assign, _Fragment
 # Print Constant -----------------------------------------------------------------------------------
 
 def _generate_constant(node):
+    # Signed Constants are printed as signed literals (a based literal without "s" is unsigned in Verilog
+    # and makes the whole expression it is part of unsigned).
+    if node.signed:
+        if (node.value < 0) and (-node.value < 2**(node.nbits - 1)):
+            return f"-{node.nbits}'sd{-node.value}", True
+        # Positive (or most negative) value: print the two's complement pattern.
+        return f"{node.nbits}'sd{node.value & (2**node.nbits - 1)}", True
     return "{sign}{bits}'d{value}".format(
         sign  = "" if node.value >= 0 else "-",
         bits  = str(node.nbits),
